@@ -178,7 +178,26 @@ def run(tier):
     streams = stream_scenarios(tier, rng, tpl)
     parses = parse_scenarios(tier)
     byid = {s["id"]: s for s in streams + parses}
+    # a malformed packet INSTEAD of the CONNACK, or directly behind it in the same segment (the connection is not, or only
+    # just, established): it ends the connection with an error observable through Err() and the state callback all the same
+    early = []
+    for t in tpl:
+        if t["v"] == "bad" and t["name"] not in ("connack-flags", "connack-1", "connack-empty"):
+            for at in ("noconnack", "withconnack"):
+                early.append({"id": "y%d" % len(early), "mode": "stream", "bytes": t["bytes"], "split": 0, "at": at, "desc": "%s %s" % (at, t["name"])})
+    for t in tpl:
+        if t["name"] in ("connack-flags", "connack-1", "connack-empty"):
+            early.append({"id": "y%d" % len(early), "mode": "stream", "bytes": t["bytes"], "split": 0, "at": "noconnack", "desc": "noconnack %s" % t["name"]})
+    res_e, crashed_e = run_driver(binary, early, 20)
+    earlyid = {s["id"]: s for s in early}
+    for r in res_e:
+        sc = earlyid[r["id"]]
+        if r.get("res") or not r["died"] or r["errnil"] or not r["cbclosed"]:
+            kind = "reader-stuck" if r.get("res") else "survived-malformed-packet" if not r["died"] else "death-not-reported"
+            verd.witness(kind, sc["desc"][:60], "%s: died=%s Err() nil=%s Closed callback with that error=%s %s" % (sc["desc"], r["died"], r["errnil"], r["cbclosed"], r.get("res", "")),
+                         {"scenario": sc, "result": r})
     res_s, crashed = run_driver(binary, streams, 50)
+    crashed = crashed + crashed_e
     res_p, crashed_p = run_driver(binary, parses, 2000)
     culprits, survivors = isolate_crashes(binary, crashed + crashed_p)
     res_s += [r for r in survivors if r["mode"] == "stream"]
@@ -206,7 +225,7 @@ def run(tier):
     distinct = len({json.dumps(r["bytes"]) for r in res_s if r["died"] or r["ho"]}) + len({(r["t"], r["f"], tuple(r["body"])) for r in res_p if r["res"] != "ok"})
     vlib.write_evidence(PID, tier, "exploration", {
         "evaluations": len(results), "distinct_nontrivial": distinct,
-        "rule": "streams: every sequence of <=%d of the 68 templates of FramerGen.tla + seeded mutations/random bytes (<=300 bytes), delivered at once or in small chunks; parsers: all (type, flags, body<=%d bytes over {0,1,2,'a',0x80}); non-trivial = the client ended the connection or handed over a message / the parser rejected"
+        "rule": "streams: every sequence of <=%d of the templates of FramerGen.tla (incl. string length fields at the 16-bit edges) + seeded mutations/random bytes (<=300 bytes), delivered at once or in small chunks; parsers: all (type, flags, body<=%d bytes over {0,1,2,'a',0x80,0xFF}); non-trivial = the client ended the connection or handed over a message / the parser rejected"
                 % (2 if tier == "quick" else 3, 3 if tier == "quick" else 4),
         "streams": len(res_s), "parser_vectors": len(res_p), "crashed_batches": len(crashed) + len(crashed_p), "templates": len(tpl),
         "streams_where_client_died": sum(1 for r in res_s if r["died"]), "largest_read_buffer": max([r["maxbuf"] for r in res_s] or [0]),
